@@ -191,6 +191,12 @@ def finish_part(part, ex, cov=None):
     for k in part.queries:
         part.queries[k] += ex.stats.queries[k]
     part.solver_time += ex.stats.solver_time
+    xc = getattr(part, 'xcheck', None) or {}
+    for k, v in ex.xcheck.items():
+        xc[k] = xc.get(k, 0) + v
+    part.xcheck = xc
+    if ex.xcheck.get('DISAGREE_sat'):
+        part.inconclusive.append("cvc5 reports sat on %d quer(ies) that z3 decided unsat" % ex.xcheck['DISAGREE_sat'])
     if cov is not None:
         part.functions |= set(cov.functions())
 
@@ -235,6 +241,8 @@ def write_evidence(prop, tier, seed, parts, wall, level='model_checking', extra=
             'inconclusive': [s for p in parts for s in p.inconclusive][:50],
             'known_findings_seen': sorted({v['finding'] for v in known}),
             'validation_failures': [s for p in parts for s in p.validation_failures][:20],
+            'cross_checked_with_cvc5': {k: sum((getattr(p, 'xcheck', None) or {}).get(k, 0) for p in parts)
+                                        for k in ('agree_unsat', 'cvc5_unknown', 'DISAGREE_sat', 'skipped')},
             'per_config': [{'config': p.name, 'paths': p.paths, 'queries': p.queries, 'wall_s': round(p.wall, 2)} for p in parts],
         },
         'assumptions': assumptions,
